@@ -39,7 +39,7 @@ int main(void)
 	int m_ok = (CODEC == CODEC_RS28) || m == 4 || m == 8;
 	int inside, outside;
 	st = of_create_codec_instance(&ses, (of_codec_id_t)CODEC, OF_ENCODER_AND_DECODER, 0);
-	CHECK(st == OF_STATUS_OK && ses != NULL, "SETUP.create");
+	REQUIRE(st == OF_STATUS_OK && ses != NULL, "SETUP.create");
 	st = of_set_fec_parameters(ses, fill_params(&prm, CODEC, k, r, len, m, 0, 0));
 	inside = m_ok && k >= 1 && k <= lim && r >= 1 && n <= lim && len >= 1;
 	outside = !m_ok || k == 0 || len == 0 || k > lim;
@@ -65,7 +65,7 @@ int main(void)
 	unsigned long long n = (unsigned long long)k + r;
 	int inside, outside;
 	st = of_create_codec_instance(&ses, OF_CODEC_LDPC_STAIRCASE_STABLE, ROLE, 0);
-	CHECK(st == OF_STATUS_OK && ses != NULL, "SETUP.create");
+	REQUIRE(st == OF_STATUS_OK && ses != NULL, "SETUP.create");
 	CHECK(of_get_control_parameter(ses, OF_CTRL_GET_MAX_K, &maxk, sizeof maxk) == OF_STATUS_OK && maxk >= 1, "C09.max_k_reported");
 	CHECK(of_get_control_parameter(ses, OF_CTRL_GET_MAX_N, &maxn, sizeof maxn) == OF_STATUS_OK && maxn >= maxk, "C09.max_n_reported");
 	st = of_set_fec_parameters(ses, fill_params(&prm, CODEC_LDPC, k, r, len, 0, n1, seed));
@@ -96,13 +96,13 @@ int main(void)
 	CHECK(of_get_control_parameter(NULL, OF_CTRL_GET_MAX_K, &i, sizeof i) != OF_STATUS_OK, "C09.null_session_rejected");
 	/* valid sessions */
 	st = of_create_codec_instance(&enc, (of_codec_id_t)CODEC, OF_ENCODER, 0);
-	CHECK(st == OF_STATUS_OK, "SETUP.create");
+	REQUIRE(st == OF_STATUS_OK, "SETUP.create");
 	st = of_set_fec_parameters(enc, fill_params(&prm, CODEC, PK, PR, PLEN, PM, 3, 1));
-	CHECK(st == OF_STATUS_OK, "SETUP.params");
+	REQUIRE(st == OF_STATUS_OK, "SETUP.params");
 	st = of_create_codec_instance(&dec, (of_codec_id_t)CODEC, OF_DECODER, 0);
-	CHECK(st == OF_STATUS_OK, "SETUP.create");
+	REQUIRE(st == OF_STATUS_OK, "SETUP.create");
 	st = of_set_fec_parameters(dec, fill_params(&prm, CODEC, PK, PR, PLEN, PM, 3, 1));
-	CHECK(st == OF_STATUS_OK, "SETUP.params");
+	REQUIRE(st == OF_STATUS_OK, "SETUP.params");
 	/* wrong role */
 	CHECK(of_decode_with_new_symbol(enc, sym[0], 0) != OF_STATUS_OK, "C09.wrong_role_rejected");
 	CHECK(of_set_available_symbols(enc, tab) != OF_STATUS_OK, "C09.wrong_role_rejected");
